@@ -1,5 +1,6 @@
 import PcfgVerif.Properties.OmenTrainCore
 import PcfgVerif.Lemmas.OmenProbLemmas
+import PcfgVerif.Lemmas.OmenFilesD
 import PcfgVerif.Lemmas.SoftFloatLemmas
 import PcfgVerif.Properties.ProbsCore
 /-!
@@ -17,6 +18,17 @@ theorem C18_keyspace (t : TTables) (hwf : t.WF) (level : Nat)
     (s0 : CState) (hs : t.toTables.start = some s0) :
     ∃ N, ∀ fuel, N ≤ fuel → (t.toTables.enumFrom level fuel s0).length = t.levelKeyspace level :=
   levelKeyspace_eq_emitted t hwf level s0 hs
+
+/-- the same over the files: the generator run over the tables the loader builds from `IP.level` / `CP.level` / `LN.level`
+emits exactly `levelKeyspace level` strings at that level -/
+theorem C18_keyspace_from_files (t : TTables) (hwf : t.WF) (level : Nat) :
+    ∃ tb, t.loadTables = some tb ∧ ∀ s0, tb.start = some s0 →
+      ∃ N, ∀ fuel, N ≤ fuel → (tb.enumFrom level fuel s0).length = t.levelKeyspace level := by
+  obtain ⟨tb, hload, hsim⟩ := loadTables_sim t hwf.good
+  refine ⟨tb, hload, fun s0 hs0 => ?_⟩
+  have hs : t.toTables.start = some s0 := by rw [← hsim.start]; exact hs0
+  obtain ⟨N, h⟩ := C18_keyspace t hwf level s0 hs
+  exact ⟨N, fun fuel hf => by rw [hsim.enumFrom]; exact h fuel hf⟩
 
 /-- per (length, initial n-gram) block the recursion counts the parse trees -/
 theorem C18_block (t : TTables) (hwf : t.WF) (len : Nat) (ip : Str) (level : Nat) :
